@@ -8,8 +8,10 @@ from bcheck.common import pmap, result, merge, time_limit, CaseTimeout
 ALIGN = 'src/alignment/aligner.py::Aligner.align'
 
 
-def align_case(case):
-    """the real Aligner.align on one generated case -> (row, reference map, query map); the conflict monitor records what the resolver did"""
+def align_case(case, aligners=None):
+    """the real Aligner.align on one generated case -> (row, reference map, query map); the conflict monitor records what the resolver did.
+    aligners: {maxDistance: Aligner} shared by the cases of a chunk (the program uses ONE aligner, engine, factory, chainer and resolver for every
+    candidate of every query: a candidate must not depend on what the services were asked before)"""
     from bcheck import conflict_monitor as cm
     from src.alignment.aligner import Aligner, AlignerEngine
     from src.alignment.alignment_position_scorer import AlignmentPositionScorer
@@ -26,16 +28,18 @@ def align_case(case):
     if case['reverse']:
         qpos = sorted(qpos[-1] - p for p in qpos)
     query = OpticalMap(5, qpos[-1] + 1, list(qpos))
-    aligner = Aligner(AlignmentPositionScorer(1000, 1., -250), AlignmentSegmentsFactory(1000, 1200), AlignerEngine(case['maxDistance']),
-                      AlignmentSegmentConflictResolver(SegmentChainer(SequentialityScorer(1., 0))))
+    def mk():
+        return Aligner(AlignmentPositionScorer(1000, 1., -250), AlignmentSegmentsFactory(1000, 1200), AlignerEngine(case['maxDistance']),
+                       AlignmentSegmentConflictResolver(SegmentChainer(SequentialityScorer(1., 0))))
+    aligner = mk() if aligners is None else aligners.setdefault(case['maxDistance'], mk())
     row = aligner.align(ref, query, [Peak(pk, 10. + i) for i, pk in enumerate(case['peaks'])], case['reverse'])
     return row, ref, query
 
 
-def run_aligner_case(case):
+def run_aligner_case(case, aligners=None):
     from bcheck import conflict_monitor as cm
     from bcheck import records as R
-    row, ref, query = align_case(case)
+    row, ref, query = align_case(case, aligners)
     qpos = query.positions
     pairs = [(p.reference.siteId, p.query.siteId) for p in row.alignedPairs]
     if not pairs:
@@ -86,11 +90,14 @@ def make_case(s):
 def aligner_chunk(seeds):
     build_case = make_case
     out, nt = [], 0
+    aligners, last = {}, {}
     for s in seeds:
         case = build_case(s)
+        case['previous_case_on_the_same_aligner'] = last.get(case['maxDistance'])
+        last[case['maxDistance']] = {k: v for k, v in case.items() if k != 'previous_case_on_the_same_aligner'}
         try:
             with time_limit(20):
-                bad, nseg, pairs = run_aligner_case(case)
+                bad, nseg, pairs = run_aligner_case(case, aligners)
         except CaseTimeout:
             bad, nseg, pairs = [('terminates', None)], 0, []
         except Exception as e:
@@ -132,7 +139,14 @@ def replay(repo, rp):
     if 'aligner_case' in i:
         from bcheck.common import use_repo
         use_repo(repo)
-        bad, nseg, pairs = run_aligner_case(i['aligner_case'])
+        aligners = {}
+        prev = i['aligner_case'].get('previous_case_on_the_same_aligner')
+        if prev:
+            try:
+                run_aligner_case(prev, aligners)
+            except Exception:
+                pass
+        bad, nseg, pairs = run_aligner_case(i['aligner_case'], aligners)
         want = rp.get('key', '')
         hit = [b for b in bad if f"{ALIGN}::monitor::C01::{b[0]}" + (f"::{b[1]}" if b[1] else '') == want]
         return (not hit), dict(violated=bad, pairs=pairs[:40])
